@@ -17,6 +17,7 @@ import (
 	"storj.io/drpc/drpcmanager"
 	"storj.io/drpc/drpcstats"
 	"storj.io/drpc/drpcstream"
+	"storj.io/drpc/drpcwire"
 	"storj.io/drpc/internal/drpcopts"
 )
 
@@ -167,13 +168,23 @@ func (s *Server) handleRPC(stream *drpcstream.Stream, rpc string) (err error) {
 	if err != nil {
 		return errs.Wrap(stream.SendError(err))
 	}
-	err = stream.CloseSend()
 
 	// the handler has returned, so nothing will ever receive what the client
-	// may still send on this stream. terminate it locally: otherwise an unread
-	// message blocks the connection reader forever (it waits for a receiver),
-	// the client's own close is stuck behind it, and the connection can serve
-	// no further rpc although it looks healthy. nothing is sent to the client.
+	// may still send on this stream. end the receive side the way a half-close
+	// from the client would, before the half-close below is written: a message
+	// nobody reads parks the connection reader (it waits for a receiver), and
+	// on a transport that does not buffer, the write below completes only when
+	// the client reads it, which a client that is itself still sending to the
+	// parked reader never gets to.
+	_ = stream.HandlePacket(drpcwire.Packet{
+		ID:   drpcwire.ID{Stream: stream.ID()},
+		Kind: drpcwire.KindCloseSend,
+	})
+	err = stream.CloseSend()
+
+	// terminate it locally: otherwise the client's own close is stuck behind
+	// what it still sends, and the connection can serve no further rpc although
+	// it looks healthy. nothing is sent to the client.
 	stream.Cancel(context.Canceled)
 
 	return errs.Wrap(err)
